@@ -34,6 +34,84 @@ PROPS = {
     note='bounded: 1-4 variables of size 2-3; beyond 2^16 pairs only U x B / B x U; default policies',
     design_ref='DESIGN.md 4/C04',
  ),
+ 'C13': dict(
+    level=MC, engines=[('rel', 'eng_c13'), ('asan', 'eng_c13')],
+    technique='bounded exhaustive enumeration of histories BUILD* [OP] REORDER(pi) [REORDER(pi2)] [OP] over all target permutations, all 8 heuristics, both swap methods and all rand() answer scripts, executed on the real library (release and ASan builds), compared with permuted truth tables',
+    rule='every (register set, warm flag, target permutation pi, optional second permutation, rand() answer script for RANDOM) per (kind, shape, heuristic, swap method); register sets = every single catalogue function and every sharing triple; each execution on a fresh library instance. non-trivial = pi is not the identity; distinct by the whole case string',
+    bounds={'quick': '12 kinds (MT bool/int/real sets F/Q, EV+ sets F/Q, MT bool/int relations F/Q/I) x shapes S4,S7,(S8 sets) x 8 heuristics x 2 swap methods; catalogue <= 64 functions (10 for RANDOM); second permutation in {none, identity, reverse}; ASan build on S7/S8',
+            'thorough': 'adds S5, S11 (sets) and S5 (relations), catalogue <= 256 (24 for RANDOM), second permutation = every permutation'},
+    text='Exhaustive over target permutations (2..24), heuristics, swap methods, rand() scripts and the stated register catalogues; every held edge must read back the permuted table through two readers, be the canonical edge, the forest must pass the full audit A1-A12, and a bystander forest over the same domain must be untouched.',
+    note='bounded: 2-4 variables with non-uniform sizes 2-3; catalogues are complete universes up to 64/256 functions, structured family beyond; RANDOM choice values 0..2 cover all residues because at most 3 inversions are pending',
+    design_ref='DESIGN.md 4/C13',
+ ),
+ 'C02': dict(
+    level=MC, engines=[('rel', 'eng_hist')],
+    technique='bounded exhaustive enumeration of all API histories over a node-creating alphabet up to a depth bound, each executed on a fresh instance of the real library under every storage/memory-manager/deletion policy of the menu, with a whole-forest structural audit (A1-A10, A14) at the quiescent point',
+    rule='every history (sequence of alphabet symbols: BUILD by harness builder / minterm collection / createConstant / createEdgeForVar with every terms pattern, every binary/unary operation of the kind, copy through a second forest, RELEASE, CLEAR) up to the depth bound x every policy configuration; non-trivial = history of length >= 2; distinct by (history, configuration)',
+    bounds={'quick': '23 forest kinds (8 set, 15 relation) on S4 (sets) / S3 (relations), alphabet ~50 symbols, depth 3, 6 covering policy combinations',
+            'thorough': 'adds S5, S7 (sets) and S4 (relations), catalogue 8, all 36 policy combinations'},
+    text='Exhaustive over histories to the depth bound and over the policy menu; after every history every active node of every forest is audited against all reduction-rule, normalisation, hashing, unique-table and counting invariants, and register values are compared with reference tables. The same audit also runs inside every other check. Variable reordering + audit is explored by the C13 engine (same auditor).',
+    note='bounded: depth 3, tiny domains; node-creating paths limited to the alphabet; reorderings audited in C13',
+    design_ref='DESIGN.md 4/C02',
+ ),
+ 'C06': dict(
+    level=MC, engines=[('rel', 'eng_hist'), ('asan', 'eng_hist')],
+    technique='bounded exhaustive enumeration of all API histories (constructions, operations incl. image/reachability/saturation, edge copy/assign/self-assign/release, cache clears, reference-count width macros, churn, forest destruction) up to a depth bound on the real library (release and ASan builds), with an exact recount of every reference and cache count and a leak probe after every history',
+    rule='every history over the alphabet up to the depth bound per (kind, shape, policy); oracle = A11 exact incoming-count recount (parents + registered dd_edges + nodes under construction), A12 cache recount, A13, register read-back, then release-everything leak probe (every surviving node must be reachable from a still-registered edge) and rebuild of the catalogue. non-trivial = length >= 2',
+    bounds={'quick': '5 kinds + 4 relation scenarios x 5 policies (optimistic, pessimistic, never, sparse+grid+pessimistic, full+heap), alphabet 50-60 symbols incl. DUP(254..65537) and CHURNUP(600), depth 3; ASan build depth 3 on 2 policies',
+            'thorough': 'depth 4'},
+    text='Exhaustive over histories to the depth bound; exact reference and cache recount of every forest after every history, leak probe, and an ASan build for use of reclaimed node memory.',
+    note='bounded: depth 3/4 with macro symbols for counter widths and table growth; error paths excluded (C16)',
+    design_ref='DESIGN.md 4/C06',
+ ),
+ 'C07': dict(
+    level=MC, engines=[('rel', 'eng_hist')],
+    technique='bounded exhaustive enumeration of all API histories over BUILDOP / RELEASE / CLEAR / STALES / CLEARALL / WARM(600) / CHURN symbols up to a depth bound, each executed under every compute-table configuration (4 styles x 3 stale policies x sizes, optional compression) on the real library, with reference tables, a cross-configuration differential and a cache-count recount after every primitive call',
+    rule='every history up to the depth bound x every compute-table configuration; after every symbol: A11 + A12 (cache count of every handle equals the number of entries naming it; no entry names a free handle) and register read-back; at the end full audit and identical observables (tables, node/edge counts, DAG signatures) across all configurations. non-trivial = length >= 2',
+    bounds={'quick': '3 scenarios x 2 deletion policies: depth 2 under 12 CT configurations (4 styles x 3 stale policies, size 1024) + depth 3 under the default configuration; alphabet ~90 symbols',
+            'thorough': 'depth 3 under 72 configurations (4 styles x 3 stale x 3 sizes x compression on/off)'},
+    text='Exhaustive over histories to the depth bound and the CT configuration menu; results are compared with CT-independent reference tables and across configurations, and cache counts are recounted after every primitive call.',
+    note='bounded: depth 2-3 with WARM(600) macro forcing > 512 live entries (table resize/GC); maxSize values 1024, 4096, 2^24',
+    design_ref='DESIGN.md 4/C07',
+ ),
+ 'C12': dict(
+    level=MC, engines=[('rel', 'eng_hist')],
+    technique='bounded exhaustive enumeration of all API histories up to a depth bound, each executed under all 36 storage x memory-manager x deletion policy combinations on the real library and compared (differential) on register tables, node/edge counts and handle-abstracted DAG signatures, plus the full audit in each configuration',
+    rule='every history over {BUILD, OP, copy-through-forest, RELEASE, CLEAR, CHURNUP(600), CHURNDOWN, CHURNUP(20)} up to the depth bound x 36 policy combinations; non-trivial = length >= 2',
+    bounds={'quick': '5 kinds (MT int set Q, MT bool relation I, EV+ set F, EV* relation F, MT bool set F) on S7/S3, depth 2, 36 policies',
+            'thorough': 'depth 3, catalogue 8'},
+    text='Exhaustive over histories to the depth bound x all 36 policy combinations; observables must be identical across policies and equal to the reference tables; every configuration passes the audit.',
+    note='bounded: depth 2/3; active-node totals are not compared across deletion policies (they legitimately differ)',
+    design_ref='DESIGN.md 4/C12',
+ ),
+ 'C15': dict(
+    level=EX, engines=[('rel', 'eng_c15')],
+    technique='bounded exhaustive enumeration of every boolean set of each shape through CONVERT_TO_INDEX_SET on the real library, compared with the rank function; getElement for every index in [-2, n+2]; stored cardinalities recounted',
+    rule='every subset of the domain (2^points sets) per (shape, source rule, index rule, policy), two passes (forward; reverse after all sources were released and rebuilt with the conversion cache warm); evaluate + independent walker at every point, getElement(i) for i in [-2,n+2], root cardinality, A14 on every index node. non-trivial = 1 < |set| < points',
+    bounds={'quick': 'S1-S7 complete (up to 4096 sets) x source F/Q x index F/Q, S8 (65536 sets) into F', 'thorough': 'adds S8 all combinations, S9, S11, S12, 3 policies'},
+    text='Exhaustive over all subsets of the stated shapes.',
+    note='bounded: <= 16 points per domain',
+    design_ref='DESIGN.md 4/C15',
+ ),
+ 'C18': dict(
+    level=MC, engines=[('rel', 'eng_c18'), ('asan', 'eng_c18')],
+    technique='bounded exhaustive enumeration of all request/recycle sequences up to a depth bound on a bare memory manager of each style and granularity (real code, release and ASan builds), checked after every call against an interval + sentinel-pattern allocator model',
+    rule='every enabled sequence of request(size in the size menu) / recycle(j-th live chunk) of the stated length (all shorter ones are prefixes), executed twice in a row on one manager (second round after everything was recycled); after every call: returned size >= requested, handle valid, byte intervals of live chunks pairwise disjoint, every byte of every live chunk unchanged (pattern with MSB set in interior slots). non-trivial = every sequence; distinct by sequence string',
+    bounds={'quick': '5 styles x granularities {4,8,2}, 6 sizes, <= 4 live chunks, depth 6 (ASan 5)', 'thorough': '9 sizes, <= 5 live chunks, depth 7 (ASan 6)'},
+    text='Exhaustive over request/recycle sequences to the depth bound for all five styles.',
+    note='bounded: depth 6/7, chunk sizes up to 40 slots, at most 4/5 live chunks',
+    design_ref='DESIGN.md 4/C18',
+ ),
+ 'C19': dict(
+    level=EX, engines=[('rel', 'eng_c19')],
+    technique='exhaustive loops over the whole value spaces (all 2^31 integer terminals, all 2^32 float bit patterns) through the real encode/decode code, plus forest-level boundary sets',
+    rule='thorough: every integer in [intMin,intMax] and every non-NaN float bit pattern; quick: boundary regions (+-2^20 around intMin, 0, intMax; float exponents 0,1,127,128,254,255 complete) and a fixed stride-257 sweep of the rest; always: 2064 out-of-range integers, forest-level interface (handleForValue/getValueFromHandle/getEdgeForValue/getValueForEdge/createConstant/evaluate/stored below a node) on boundary sets for MT int/real/bool, EV+ (incl. +infinity) and EV*',
+    bounds={'quick': 'boundary regions + stride 257 (not exhaustive)', 'thorough': 'all 2^31 integers and all 2^32 float patterns'},
+    text='Thorough tier is exhaustive over the entire terminal value space; quick tier is a deterministic boundary + stride sweep.',
+    note='quick is not exhaustive (stated in evidence); denormal +-2^-149 decoding to zero with a non-zero handle is an observation, not checked',
+    design_ref='DESIGN.md 4/C19',
+    exhaustive={'quick': False, 'thorough': True},
+ ),
 }
 
 NOT_YET = {}
